@@ -1,6 +1,7 @@
 import FrappyProofs.Lemmas.Update
 import FrappyProofs.Lemmas.UpdateSys
 import FrappyProofs.Lemmas.UpdateAct
+import FrappyProofs.Lemmas.UpdateCanon
 import FrappyModel.Generated.C05
 /-
 C05 — property theorems (nothing but property theorems and their non-vacuity examples).
@@ -37,6 +38,28 @@ theorem reconstructs (o : Oracle V E) (ex : V → X) (h : ExportExact o ex) (e :
     · have := ih (announceR o e x.now x.r).entry
       rw [hk] at this
       exact this
+
+/-- `replay_eq_cache` and `reconstructs` under the hypothesis the harness tests on EVERY case instead of assuming it: the
+comparison only has to be exact (`!=` false ⇒ same exported form) on CANONICAL values — results of the datatype's
+conversion / validation —, because nothing else ever reaches the cache: the entry starts with a canonical value, the
+conversion yields canonical values, and a value announced with `validate=False` is canonical (what the docstring of
+`announceUpdate` demands and the wrappers do).  Raw values that break the law (`-0.0`/`0.0`, `1`/`True`, list/tuple) do
+not matter. -/
+theorem replay_eq_cache_canonical (o : Oracle V E) (ex : V → X) (canon : V → Bool) (h : CanonExact o ex canon)
+    (e : Entry V E) (evs : List (TEv V E)) (he : canon e.value = true)
+    (hconv : ∀ v v', o.conv v = .ok v' → canon v' = true)
+    (hraw : ∀ x ∈ evs, ∀ v, x.ev = .value v false → canon v = true) :
+    replay (e.ve.map ex) ((run o e evs).msgs.map (fun m => m.ve.map ex)) = (run o e evs).entry.ve.map ex ∧
+    Reconstructs (e.ve.map ex) ((trace o e evs).map (obsOf ex)) := by
+  have hx := canonEvs_resolve o canon evs hconv hraw
+  have hres : evs.map (TEv.resolve (restrictO o canon)) = evs.map (TEv.resolve o) := rfl
+  constructor
+  · have := replay_eq_cache (restrictO o canon) ex (restrictO_exact o ex canon h) e evs
+    unfold run at this ⊢
+    rwa [hres, runR_restrict o canon e _ he hx] at this
+  · have := reconstructs (restrictO o canon) ex (restrictO_exact o ex canon h) e evs
+    unfold trace at this ⊢
+    rwa [hres, traceR_restrict o canon e _ he hx] at this
 
 /-- Every emitted message equals the entry's value-or-error (and time stamp) at its emission. -/
 theorem never_phantom (o : Oracle V E) (ex : V → X) (e : Entry V E) (evs : List (TEv V E)) :
@@ -134,6 +157,69 @@ theorem change_announced (o : Oracle V E) (e : Entry V E) (now : Int) :
   constructor
   · intro v hv; unfold announceR; rw [emits_changed o e now v hv]; simp
   · intro x hx; unfold announceR; rw [emits_error o e now x hx]; simp
+
+/-- successive values, each of which the comparison of the funnel (`veq`) does not tell apart from the one before -/
+def Drift (o : Oracle V E) : V → List V → Prop
+  | _, [] => True
+  | a, b :: rest => o.veq a b = true ∧ Drift o b rest
+
+/-- the last value of a history of values (the start value if it is empty) -/
+def lastOr : V → List V → V
+  | a, [] => a
+  | _, b :: rest => lastOr b rest
+
+/-- Why the comparison in the funnel has to be EXACT (`ExportExact`): with ANY comparison, a drift — values of which each
+is "unchanged" relative to the one before, e.g. closer than some resolution — arriving inside the window (or for ever
+with `update_unchanged = never`) is stored value by value without a single message: the cache ends at the last value of
+the drift, however far from the last announced one. -/
+theorem tolerant_compare_drifts (o : Oracle V E) (e : Entry V E) (vs : List V) (now : Int)
+    (hne : e.readerror = none) (hwin : now < e.timestamp + e.window) (hd : Drift o e.value vs) :
+    (runR o e (vs.map (fun v => ⟨now, .val v⟩))).msgs = [] ∧
+    (runR o e (vs.map (fun v => ⟨now, .val v⟩))).entry = { e with value := lastOr e.value vs } := by
+  induction vs generalizing e with
+  | nil => simp [runR, lastOr]
+  | cons v rest ih =>
+    obtain ⟨h1, h2⟩ := hd
+    have hem : emits o e now (.val v) = false := by
+      simp [emits, changed, h1, hne, hwin]
+    have hout : announceR o e now (.val v) = ⟨{ e with value := v }, none⟩ := by
+      unfold announceR; rw [hem]; rfl
+    have := ih { e with value := v } hne hwin h2
+    simp only [List.map_cons, runR, hout, Option.toList, List.nil_append]
+    exact ⟨this.1, by rw [this.2]; rfl⟩
+
+/-- … so with such a comparison the statement is false as soon as the ends of a drift have different exported forms. -/
+theorem tolerant_compare_breaks (o : Oracle V E) (ex : V → X) (e : Entry V E) (vs : List V) (now : Int)
+    (hne : e.readerror = none) (hwin : now < e.timestamp + e.window) (hd : Drift o e.value vs)
+    (hfar : ex (lastOr e.value vs) ≠ ex e.value) :
+    replay (e.ve.map ex) ((runR o e (vs.map (fun v => ⟨now, .val v⟩))).msgs.map (fun m => m.ve.map ex)) ≠
+      (runR o e (vs.map (fun v => ⟨now, .val v⟩))).entry.ve.map ex := by
+  obtain ⟨h1, h2⟩ := tolerant_compare_drifts o e vs now hne hwin hd
+  rw [h1, h2]
+  simp only [List.map_nil, replay, List.foldl_nil, Entry.ve, hne, VE.map]
+  intro h
+  exact hfar (by injection h with h; exact h.symm)
+
+/-- A `write_<p>` (called directly, or by a `change` request) that takes the value over — assigns the parameter — and
+fails afterwards: nothing is announced by the wrapper, but every assignment was a complete call of the funnel, so the
+history of the parameter is exactly these calls (and `replay_eq_cache` / `change_announced` apply to it). -/
+theorem failed_write_announces_assignments (o : Oracle V E) (raw : V) (inner : List V)
+    (hc : writeCalled o raw true .raises = true) :
+    writeEvs o raw true inner .raises = inner.map assignEv := by
+  unfold writeEvs writeInner
+  rw [hc]
+  unfold writeEv
+  cases hv : o.valid raw with
+  | error x => simp [writeCalled, hv] at hc
+  | ok nv => simp [innerEvs]
+
+/-- The calls of the funnel a `change` request makes do not depend on which connection sent it (the connection is not
+even an argument of `changeEvs`), and whatever they are the stream reconstructs the cache after them. -/
+theorem change_request_replay (o : Oracle V E) (ex : V → X) (h : ExportExact o ex) (e : Entry V E) (now : Int)
+    (rq : ChangeReq V) (ck : Bool) (inner : List V) (w : WriteRes V) :
+    let evs := (changeEvs o rq ck inner w).map (fun ev => (⟨now, ev⟩ : TEv V E))
+    replay (e.ve.map ex) ((run o e evs).msgs.map (fun m => m.ve.map ex)) = (run o e evs).entry.ve.map ex :=
+  replay_eq_cache o ex h e _
 
 /-- A parameter that is not exported never produces a message (and its cache entry evolves as that of any other);
 for an exported one `announceX` is the funnel. -/
@@ -495,6 +581,118 @@ theorem conc_ok_activation (c : Cfg V E) (ex : V → X) (h : ExportExact c.o ex)
     simp only [hmap]
     rw [hlg k ⟨hk, hf.1, hf.2⟩, hlg k' ⟨hk', hf'.1, hf'.2⟩]
 
+/-! ### requests that come through the dispatcher -/
+
+/-- A `change` request of connection `k` on parameter `p`, handled by thread `t` while any other threads do anything
+(funnel calls, activations, other requests): in every reachable state
+* the calls of the funnel the request has completed are the beginning of `changeEvs` (all of them once the request is
+  finished) and they are part of the history `hist p` the sequential run is made of;
+* the requesting connection itself — if it is entitled to the state of `p` (subscribed before the run or sent the
+  snapshot) — knows exactly the cache of `p` whenever no call on `p` is in flight: it is a listener like any other, the
+  update caused by its own request, an assignment made by a failing `write_<p>`, and an update made by another thread
+  while the request is under way are all delivered to it. -/
+theorem change_request_coherent (c : Cfg V E) (ex : V → X) (h : ExportExact c.o ex) (init : Pid → Entry V E)
+    (progs : Tid → List (Op V E)) (clock : Int) (s : Sys V E) (hn : c.conns.Nodup)
+    (hr : Reach c (Sys.init init progs clock c.act0) s)
+    (t : Tid) (k : Cid) (p : Pid) (rq : ChangeReq V) (ck : Bool) (inner : List V) (w : WriteRes V)
+    (hprog : progs t = changeOps c.o k p rq ck inner w) :
+    (∃ rest, (changeEvs c.o rq ck inner w).map (fun ev => (p, resolve c.o ev)) = doneBy t s.ghist ++ rest) ∧
+    (finished s t = true → doneBy t s.ghist = (changeEvs c.o rq ck inner w).map (fun ev => (p, resolve c.o ev))) ∧
+    s.hist p = onParam p s.ghist ∧
+    (Sub c s k p → (∀ t', pcPid (s.thr t').pc ≠ some p) →
+      replayO (known0 c ex init k p) ((plog s k p).map (fun m => m.ve.map ex)) = some ((s.entries p).ve.map ex)) := by
+  obtain ⟨h1, h2, h3⟩ := hist_is_interleaving c init progs clock s hr
+  have ha := annR_changeOps c.o k p rq ck inner w
+  refine ⟨?_, ?_, h3 p, fun hs hfree => activation_coherent c ex h init progs clock s hn hr k p hs hfree⟩
+  · obtain ⟨rest, hrest⟩ := h1 t
+    exact ⟨rest, by rw [← ha, ← hprog]; exact hrest⟩
+  · intro hf
+    rw [h2 t hf, hprog, ha]
+
+/-- the same for a `read` request -/
+theorem read_request_coherent (c : Cfg V E) (ex : V → X) (h : ExportExact c.o ex) (init : Pid → Entry V E)
+    (progs : Tid → List (Op V E)) (clock : Int) (s : Sys V E) (hn : c.conns.Nodup)
+    (hr : Reach c (Sys.init init progs clock c.act0) s)
+    (t : Tid) (k : Cid) (p : Pid) (inner : List V) (res : ReadRes V E)
+    (hprog : progs t = readReqOps c.o k p inner res) :
+    (finished s t = true → doneBy t s.ghist = (readEvs c.o inner res).map (fun ev => (p, resolve c.o ev))) ∧
+    s.hist p = onParam p s.ghist ∧
+    (Sub c s k p → (∀ t', pcPid (s.thr t').pc ≠ some p) →
+      replayO (known0 c ex init k p) ((plog s k p).map (fun m => m.ve.map ex)) = some ((s.entries p).ve.map ex)) := by
+  obtain ⟨_, h2, h3⟩ := hist_is_interleaving c init progs clock s hr
+  refine ⟨fun hf => ?_, h3 p, fun hs hfree => activation_coherent c ex h init progs clock s hn hr k p hs hfree⟩
+  rw [h2 t hf, hprog, annR_readReqOps]
+
+/-- the same for a `do` request whose command assigns the parameter -/
+theorem do_request_coherent (c : Cfg V E) (ex : V → X) (h : ExportExact c.o ex) (init : Pid → Entry V E)
+    (progs : Tid → List (Op V E)) (clock : Int) (s : Sys V E) (hn : c.conns.Nodup)
+    (hr : Reach c (Sys.init init progs clock c.act0) s)
+    (t : Tid) (k : Cid) (p : Pid) (inner : List V) (hprog : progs t = doOps k p inner) :
+    (finished s t = true → doneBy t s.ghist = (innerEvs inner).map (fun ev => (p, resolve c.o ev))) ∧
+    s.hist p = onParam p s.ghist ∧
+    (Sub c s k p → (∀ t', pcPid (s.thr t').pc ≠ some p) →
+      replayO (known0 c ex init k p) ((plog s k p).map (fun m => m.ve.map ex)) = some ((s.entries p).ve.map ex)) := by
+  obtain ⟨_, h2, h3⟩ := hist_is_interleaving c init progs clock s hr
+  refine ⟨fun hf => ?_, h3 p, fun hs hfree => activation_coherent c ex h init progs clock s hn hr k p hs hfree⟩
+  rw [h2 t hf, hprog, annR_doOps]
+
+/-! ### the same under the hypothesis that is tested on every case
+
+`ExportExact` (ALL values `!=` does not tell apart export identically) is false for raw values of several datatypes
+(`-0.0`/`0.0`, `1`/`True`).  Only canonical values — results of the datatype — ever reach the cache or the comparison
+(`CanonSys`, an invariant of the small-step system), so the system with the comparison restricted to canonical values
+makes exactly the same steps (`reach_restrict`) and the law is needed on canonical values only. -/
+
+theorem activation_coherent_canonical (c : Cfg V E) (ex : V → X) (canon : V → Bool) (h : CanonExact c.o ex canon)
+    (init : Pid → Entry V E) (progs : Tid → List (Op V E)) (clock : Int) (s : Sys V E) (hn : c.conns.Nodup)
+    (hi : ∀ p, canon (init p).value = true) (hp : ∀ t, progCanon c.o canon (progs t))
+    (hr : Reach c (Sys.init init progs clock c.act0) s) (k : Cid) (p : Pid) (hk : Sub c s k p)
+    (hfree : ∀ t, pcPid (s.thr t).pc ≠ some p) :
+    replayO (known0 c ex init k p) ((plog s k p).map (fun m => m.ve.map ex)) = some ((s.entries p).ve.map ex) := by
+  obtain ⟨hr', _⟩ := reach_restrict (canon := canon) (canon_init c.o canon init progs clock c.act0 hi hp) hr
+  exact activation_coherent (restrictC c canon) ex (restrictO_exact c.o ex canon h) init progs clock s hn hr' k p hk hfree
+
+theorem conc_ok_activation_canonical (c : Cfg V E) (ex : V → X) (canon : V → Bool) (h : CanonExact c.o ex canon)
+    (init : Pid → Entry V E) (progs : Tid → List (Op V E)) (clock : Int) (s : Sys V E) (hn : c.conns.Nodup)
+    (hi : ∀ p, canon (init p).value = true) (hp : ∀ t, progCanon c.o canon (progs t))
+    (hr : Reach c (Sys.init init progs clock c.act0) s) (hq : s.lock = none) (p : Pid) :
+    ConcOkA (S := VE X E) ⟨c.conns.map (fun k => ⟨known0 c ex init k p, c.act0 k p || s.snapped k p,
+        c.act0 k p && !s.snapped k p, (s.logs k p).map (fun d => ⟨d.msg.ve.map ex, d.seen.map ex⟩)⟩),
+      (s.entries p).ve.map ex⟩ := by
+  obtain ⟨hr', _⟩ := reach_restrict (canon := canon) (canon_init c.o canon init progs clock c.act0 hi hp) hr
+  exact conc_ok_activation (restrictC c canon) ex (restrictO_exact c.o ex canon h) init progs clock s hn hr' hq p
+
+theorem conc_ok_canonical (c : Cfg V E) (ex : V → X) (canon : V → Bool) (h : CanonExact c.o ex canon)
+    (init : Pid → Entry V E) (progs : Tid → List (Op V E)) (clock : Int) (s : Sys V E) (hn : c.conns.Nodup)
+    (hi : ∀ p, canon (init p).value = true) (hp : ∀ t, progCanon c.o canon (progs t))
+    (hr : Reach c (Sys.init init progs clock c.act0) s) (hq : s.lock = none) (p : Pid) :
+    ConcOk (S := VE X E) ⟨(init p).ve.map ex,
+      (statConns c s p).map (fun k => (s.logs k p).map (fun d => ⟨d.msg.ve.map ex, d.seen.map ex⟩)),
+      (s.entries p).ve.map ex⟩ := by
+  obtain ⟨hr', _⟩ := reach_restrict (canon := canon) (canon_init c.o canon init progs clock c.act0 hi hp) hr
+  exact conc_ok (restrictC c canon) ex (restrictO_exact c.o ex canon h) init progs clock s hn hr' hq p
+
+theorem change_request_coherent_canonical (c : Cfg V E) (ex : V → X) (canon : V → Bool) (h : CanonExact c.o ex canon)
+    (init : Pid → Entry V E) (progs : Tid → List (Op V E)) (clock : Int) (s : Sys V E) (hn : c.conns.Nodup)
+    (hi : ∀ p, canon (init p).value = true) (hp : ∀ t, progCanon c.o canon (progs t))
+    (hr : Reach c (Sys.init init progs clock c.act0) s)
+    (t : Tid) (k : Cid) (p : Pid) (rq : ChangeReq V) (ck : Bool) (inner : List V) (w : WriteRes V)
+    (hprog : progs t = changeOps c.o k p rq ck inner w) :
+    (∃ rest, (changeEvs c.o rq ck inner w).map (fun ev => (p, resolve c.o ev)) = doneBy t s.ghist ++ rest) ∧
+    (finished s t = true → doneBy t s.ghist = (changeEvs c.o rq ck inner w).map (fun ev => (p, resolve c.o ev))) ∧
+    s.hist p = onParam p s.ghist ∧
+    (Sub c s k p → (∀ t', pcPid (s.thr t').pc ≠ some p) →
+      replayO (known0 c ex init k p) ((plog s k p).map (fun m => m.ve.map ex)) = some ((s.entries p).ve.map ex)) := by
+  obtain ⟨hr', _⟩ := reach_restrict (canon := canon) (canon_init c.o canon init progs clock c.act0 hi hp) hr
+  exact change_request_coherent (restrictC c canon) ex (restrictO_exact c.o ex canon h) init progs clock s hn hr' t k p rq ck
+    inner w hprog
+
+/-- and the cache never holds anything but canonical values -/
+theorem cache_canonical (c : Cfg V E) (canon : V → Bool) (init : Pid → Entry V E) (progs : Tid → List (Op V E))
+    (clock : Int) (s : Sys V E) (hi : ∀ p, canon (init p).value = true) (hp : ∀ t, progCanon c.o canon (progs t))
+    (hr : Reach c (Sys.init init progs clock c.act0) s) (p : Pid) : canon (s.entries p).value = true :=
+  (reach_restrict (canon := canon) (canon_init c.o canon init progs clock c.act0 hi hp) hr).2.ent p
+
 end concurrent
 
 /-- Facts about the constants of the source the model relies on (regenerated from the repository on every
@@ -506,6 +704,27 @@ theorem window_markers :
     Frappy.Generated.C05.updateUnchangedPropertyDefault = Frappy.Generated.C05.updateUnchangedDefault ∧
     Frappy.Generated.C05.entryDefaultTimestamp = 0 ∧ Frappy.Generated.C05.entryDefaultWindow = 0 ∧
     Frappy.Generated.C05.eventReply = "update" ∧ Frappy.Generated.C05.errorEventReply = "error_update" := by
+  decide
+
+/-- The comparison and the two early returns the model of the funnel transcribes (`changed`, `emits`), as they stand in
+the source of `Module.announceUpdate` (regenerated on every run): the value is compared with Python's `!=` and nothing
+else — no tolerance (see `tolerant_compare_breaks`) —, an error with `==` of the SECoP errors; a call returns early only
+for a repeated error and for an unchanged value inside the window. -/
+theorem funnel_shape :
+    Frappy.Generated.C05.changedExprs = ["pobj.value != value or pobj.readerror"] ∧
+    Frappy.Generated.C05.earlyReturnTests = ["secop_error(err) == pobj.readerror",
+      "not changed and timestamp < (pobj.timestamp or 0) + pobj.omit_unchanged_within"] := by
+  decide
+
+/-- The fan-out as it stands in the source of `Dispatcher.broadcast_event` and of the handlers of `change` / `read`
+requests: every selected listener is sent the message by the one statement of the loop (no condition on who it is);
+which connections are selected depends on the subscription tables only; the handlers do not look at the connection that
+sent the request and store nothing in the dispatcher — what `Op.reqAcquire k` (no step reads `k`) and `listeners` model. -/
+theorem fanout_shape :
+    Frappy.Generated.C05.fanoutUnconditional = true ∧
+    Frappy.Generated.C05.fanoutReads.all
+      (fun a => ["_active_connections", "_connections", "_subscription_lock", "_subscriptions"].contains a) = true ∧
+    Frappy.Generated.C05.requestHandlersUsingConn = [] ∧ Frappy.Generated.C05.requestHandlersStores = [] := by
   decide
 
 /-! ## non-vacuity -/
@@ -639,6 +858,106 @@ example : ∃ s, Reach exCfgA exSA s ∧ s.lock = none ∧ Sub exCfgA s 3 0 ∧ 
     rw [h] at hd
     simp only [Option.map_some, Option.some.injEq, Prod.mk.injEq] at hd
     exact ⟨s, reach_of_runSched _ _ _ _ .start _ h, hd.1, ⟨by decide, Or.inr hd.2.1⟩, by decide, hd.2.2⟩
+
+/-! ### exactness on canonical values only -/
+
+/-- even numbers are canonical, the conversion rounds down to an even number, `!=` does not tell `2n` and `2n+1` apart -/
+def exCanon : Nat → Bool := fun v => v % 2 == 0
+def exOC : Oracle Nat Nat := ⟨fun a b => a / 2 == b / 2, fun v => .ok (v - v % 2), fun v => .ok (v - v % 2)⟩
+
+example : ¬ ExportExact exOC (fun v => v) := fun h => absurd (h 4 5 rfl) (by decide)
+theorem exOC_canonExact : CanonExact exOC (fun v => v) exCanon := by
+  intro a b ha hb hab
+  simp only [exCanon, exOC, beq_iff_eq] at ha hb hab
+  show a = b
+  omega
+example : ∀ v v', exOC.conv v = .ok v' → exCanon v' = true := by
+  intro v v' h
+  simp only [exOC, Except.ok.injEq] at h
+  subst h
+  simp only [exCanon, beq_iff_eq]
+  omega
+/-- assignments of 5 (stored as 4), 7 (stored as 6) and a read result 6 announced with `validate=False` -/
+def exHistC : List (TEv Nat Nat) := [⟨101, assignEv 5⟩, ⟨102, assignEv 7⟩, ⟨103, .value 6 false⟩]
+example : exCanon (⟨4, none, 100, 10⟩ : Entry Nat Nat).value = true ∧
+    (∀ x ∈ exHistC, ∀ v, x.ev = .value v false → exCanon v = true) := by
+  refine ⟨rfl, ?_⟩
+  intro x hx v hv
+  simp only [exHistC, List.mem_cons, List.mem_nil_iff, or_false] at hx
+  rcases hx with rfl | rfl | rfl <;> simp [assignEv] at hv
+  subst hv; rfl
+example : (run exOC ⟨4, none, 100, 10⟩ exHistC).msgs.map (·.ve) = [.val 6] ∧
+    (run exOC ⟨4, none, 100, 10⟩ exHistC).entry.ve = .val 6 := by decide
+
+/-- two threads assign 5 and 7 (stored as 4 and 6) over the oracle that is exact on canonical values only -/
+def exCfgC : Cfg Nat Nat := ⟨exOC, [1, 2], 1, fun _ _ => true⟩
+def exProgsC : Tid → List (Op Nat Nat)
+  | 0 => [.announce 0 (assignEv 5) .absent]
+  | 1 => [.announce 0 (assignEv 7) .absent]
+  | _ => []
+def exInitC : Pid → Entry Nat Nat := fun _ => ⟨4, none, 100, 10⟩
+example : (∀ p, exCanon (exInitC p).value = true) ∧ (∀ t, progCanon exOC exCanon (exProgsC t)) := by
+  refine ⟨fun _ => by simp [exInitC, exCanon], fun t p ev ts hm => ?_⟩
+  match t with
+  | 0 => simp only [exProgsC, List.mem_singleton, Op.announce.injEq] at hm; obtain ⟨_, rfl, _⟩ := hm; exact rfl
+  | 1 => simp only [exProgsC, List.mem_singleton, Op.announce.injEq] at hm; obtain ⟨_, rfl, _⟩ := hm; exact rfl
+  | _ + 2 => simp [exProgsC] at hm
+/-- the first assignment (5, stored as 4 = the cached value) is suppressed inside the window, the second announced -/
+example : (runSched exCfgC (Sys.init exInitC exProgsC 101 exCfgC.act0)
+    (List.replicate 6 0 ++ List.replicate 13 1)).map (fun s => ((s.logs 1 0).map (·.msg.ve), (s.entries 0).ve)) =
+    some ([.val 6], .val 6) := by decide
+
+/-! ### a comparison with a tolerance; requests through the dispatcher -/
+
+/-- `!=` replaced by "differs by more than 1" (a resolution) -/
+def exTol : Oracle Nat Nat := ⟨fun a b => decide (a ≤ b + 1) && decide (b ≤ a + 1), fun v => .ok v, fun v => .ok v⟩
+
+example : Drift exTol exE.value [6, 7, 8] := ⟨by decide, by decide, by decide, trivial⟩
+example : exE.readerror = none ∧ (101 : Int) < exE.timestamp + exE.window ∧ lastOr exE.value [6, 7, 8] ≠ exE.value := by decide
+/-- the drift 5 → 6 → 7 → 8 inside the window: no message, the cache holds 8, the client still 5 -/
+example : (runR exTol exE ([6, 7, 8].map (fun v => ⟨101, .val v⟩))).msgs = [] ∧
+    (runR exTol exE ([6, 7, 8].map (fun v => ⟨101, .val v⟩))).entry.ve = .val 8 := by decide
+/-- with the exact comparison every step of the same drift is announced -/
+example : (runR exO exE ([6, 7, 8].map (fun v => ⟨101, .val v⟩))).msgs.map (·.ve) = [.val 6, .val 7, .val 8] := by decide
+
+/-- `write_p(7)` assigns 7 and raises: one call of the funnel, announced -/
+example : writeCalled exO 7 true .raises = true ∧
+    (run exO exE ((writeEvs exO 7 true [7] .raises).map (fun ev => ⟨101, ev⟩))).msgs.map (·.ve) = [.val 7] := by decide
+/-- a `change` request for a read-only parameter, or with a datum `import_value` refuses, makes no call -/
+example : changeEvs exO ⟨true, some 7⟩ true [7] .none = ([] : List (Ev Nat Nat)) ∧
+    changeEvs exO ⟨false, none⟩ true [7] .none = ([] : List (Ev Nat Nat)) ∧
+    changeEvs exO ⟨false, some 7⟩ true [8] (.returns 9) = [assignEv 8, .value 9 false] := by decide
+
+/-- connection 1 (activated, like connection 2) sends `change p 7`; `write_p` assigns 7 and raises; thread 1 (a poller)
+assigns 9 while the request holds the dispatcher lock and the access lock -/
+def exProgsR : Tid → List (Op Nat Nat)
+  | 0 => changeOps exO 1 0 ⟨false, some 7⟩ true [7] .raises
+  | 1 => [.announce 0 (assignEv 9) .absent]
+  | _ => []
+
+def exSR : Sys Nat Nat := Sys.init exInit exProgsR 101 exCfg.act0
+
+/-- the request takes its three locks, the poller's update goes through, then the request goes on -/
+def exSchedR : List Tid := [0, 0, 0] ++ List.replicate 13 1 ++ List.replicate 16 0
+
+example : exProgsR 0 = [.reqAcquire 1, .accAcquire, .accAcquire, .announce 0 (assignEv 7) .absent, .accRelease, .accRelease,
+    .reqRelease] := rfl
+/-- the requesting connection receives the poller's 9 and its own 7, like the other connection; the cache holds 7 -/
+example : (runSched exCfg exSR exSchedR).map (fun s => ((s.logs 1 0).map (·.msg.ve), (s.logs 2 0).map (·.msg.ve),
+    (s.entries 0).ve)) = some ([.val 9, .val 7], [.val 9, .val 7], .val 7) := by decide
+example : (runSched exCfg exSR exSchedR).map (fun s => (s.dlock, s.alock, s.adepth, finished s 0)) =
+    some (none, none, 0, true) := by decide
+/-- while the request holds the access lock twice, another wrapper is blocked, an assignment is not -/
+example : (runSched exCfg exSR [0, 0, 0]).map (fun s => (s.dlock, s.alock, s.adepth)) = some (some 0, some 0, 2) := by decide
+example : (runSched (V := Nat) (E := Nat) exCfg (Sys.init exInit (fun t => if t = 0 then exProgsR 0 else [.accAcquire]) 101 exCfg.act0)
+    [0, 0, 0, 1]).isNone = true := by decide
+
+/-- connection 2 sends `do cmd`; the command assigns 8 and then 9 -/
+example : (doOps 2 0 [8, 9] : List (Op Nat Nat)) =
+    [.reqAcquire 2, .announce 0 (assignEv 8) .absent, .announce 0 (assignEv 9) .absent, .reqRelease] := rfl
+example : (runSched exCfg (Sys.init exInit (fun t => if t = 0 then doOps 2 0 [8, 9] else []) 101 exCfg.act0)
+    (List.replicate 28 0)).map (fun s => ((s.logs 2 0).map (·.msg.ve), (s.entries 0).ve, finished s 0)) =
+    some ([.val 8, .val 9], .val 9, true) := by decide
 
 end examples
 
